@@ -544,3 +544,211 @@ async fn run(case: Json, tol: Tolerate) -> Outcome {
     out.vtime_ms = net::now_ms();
     out
 }
+
+// ---------------------------------------------------------------------------------------------
+// Second scenario: hold-timer expiry in every state frees the slot.
+// The main scenario runs with hold time 0 so that its reference FSM needs no clock; here the peer
+// negotiates a non-zero hold time, stops talking in OpenSent, OpenConfirm or Established, and the
+// clock runs past the timer that is in force (RFC 4271: a large value before the OPEN exchange,
+// the negotiated one after it).  The connection must be torn down with Hold Timer Expired, the
+// role's slot must be Idle again, and a well-behaved connection afterwards must get Established.
+
+pub(crate) struct SilenceInEveryState;
+
+impl Check for SilenceInEveryState {
+    fn property(&self) -> &'static str {
+        "C07"
+    }
+    fn tier(&self) -> &'static str {
+        "D"
+    }
+    fn name(&self) -> &'static str {
+        "silence-in-every-state"
+    }
+    fn weight(&self) -> u32 {
+        1
+    }
+
+    fn generate(&self, seed: u64, _thorough: bool) -> Json {
+        let mut rng = Rng::new(seed);
+        let n = rng.range(1, 4);
+        let mut ops = Vec::new();
+        for _ in 0..n {
+            // role 0 = the DUT connects (active), 1 = the peer connects (passive); stop state 0 OpenSent, 1 OpenConfirm, 2 Established
+            ops.push(jarr!["silent", rng.below(2), rng.below(3), *rng.pick(&[0u64, 0, 500, 2000])]);
+            if rng.chance(1, 2) {
+                ops.push(jarr!["good", rng.below(2)]);
+            }
+        }
+        ops.push(jarr!["good", rng.below(2)]);
+        jobj! {"dut_hold" => *rng.pick(&[9u64, 30, 90]), "peer_hold" => *rng.pick(&[9u64, 12, 90]), "remote_higher" => rng.coin(), "sub" => rng.next_u64() >> 1, "ops" => Json::Arr(ops)}
+    }
+
+    fn execute(&self, case: &Json, tol: &Tolerate) -> Outcome {
+        let case = case.clone();
+        let tol = tol.clone();
+        let mut out = run_sim(case.i("sub", 1) as u64, move || run_silence(case, tol));
+        fix_task_panic(&mut out, "C07");
+        out
+    }
+
+    fn info(&self) -> CheckInfo {
+        CheckInfo {
+            rule: "one neighbour with a non-zero hold time on both sides; per op a connection in one role (DUT-initiated or peer-initiated) is taken to OpenSent, OpenConfirm or Established and the peer then says nothing while the clock runs past the timer in force (240 s before the OPEN exchange, min(local, remote) after it); afterwards a well-behaved connection is made. Oracle: the silent connection is closed by the DUT with NOTIFICATION Hold Timer Expired (not before the timer, not later than 2 s after it), the role's FSM is Idle again, and the next well-behaved connection reaches Established within 60 virtual seconds. non-trivial = a silent connection was observed to its end".into(),
+            components_real: vec!["accept_connection, ConnArbiter, PeerSession::{run,session_loop,run_select,apply_outputs}, apply_disconnect, fsm::Connection::{on_connected,on_open,on_keepalive,on_hold_timer_expired}".into()],
+            components_stubbed: vec!["TCP, clock, listener loop, the remote peer".into()],
+            assumptions: vec!["the OpenSent hold timer is the daemon's INITIAL_HOLD_SECS (240 s, RFC 4271 suggests 4 minutes)".into()],
+            bounds: "<=9 ops, one peer".into(),
+        }
+    }
+}
+
+async fn run_silence(case: Json, tol: Tolerate) -> Outcome {
+    let mut out = Outcome::default();
+    let peer_addr: IpAddr = "10.0.0.1".parse().unwrap();
+    let dut_rid: u32 = u32::from(Ipv4Addr::new(10, 0, 0, 254));
+    let rid = if case.get("remote_higher").map(|b| b.as_bool()).unwrap_or(false) { dut_rid + 1 } else { dut_rid - 100 };
+    let dut_hold = case.i("dut_hold", 9) as u64;
+    let peer_hold = case.i("peer_hold", 9) as u64;
+    let negotiated = dut_hold.min(peer_hold);
+    let mut cfg = WorldCfg::default();
+    let mut ps = PeerSpec::new(peer_addr, PEER_AS);
+    ps.holdtime = dut_hold;
+    ps.passive = false;
+    ps.connect_retry = 3;
+    cfg.peers.push(ps);
+    let w = World::new(&cfg).await;
+    let caps = default_caps(PEER_AS, &[Family::IPV4]);
+    let listen_addr = SocketAddr::new(peer_addr, 179);
+    let mut seen_end = false;
+
+    macro_rules! fail {
+        ($class:expr, $($arg:tt)*) => {{
+            let v = Violation::new(format!("C07/{}", $class), format!($($arg)*));
+            if out.violate(&tol, v) { out.vtime_ms = net::now_ms(); out.nontrivial = seen_end; return out; }
+        }};
+    }
+
+    // bring up one connection in the given role and return its speaker (None if the DUT did not connect)
+    async fn bring(w: &World, role: usize, listen_addr: SocketAddr, peer_addr: IpAddr, rid: u32, hold: u16, caps: &[packet::Capability]) -> Option<Speaker> {
+        let mut s = Speaker::new(peer_addr, PEER_AS, rid, hold, caps.to_vec());
+        s.auto_open = false;
+        s.auto_ka = false;
+        if role == 1 {
+            s.connect(w, &PipeOpts::default(), &PipeOpts::default());
+            w.quiesce().await;
+            return Some(s);
+        }
+        // let the DUT's active-connect loop in and wait for it (retry timer 3 s)
+        let mut l = net::listen(listen_addr);
+        let mut got = None;
+        for _ in 0..80 {
+            w.quiesce().await;
+            if let Ok(st) = l.try_recv() {
+                got = Some(st);
+                break;
+            }
+            tokio::time::sleep(Duration::from_millis(250)).await;
+        }
+        net::unlisten(listen_addr);
+        let st = got?;
+        s.attach(st);
+        w.quiesce().await;
+        Some(s)
+    }
+
+    let ops: Vec<Json> = case.get("ops").map(|o| o.arr().to_vec()).unwrap_or_default();
+    for (opi, op) in ops.iter().enumerate() {
+        let tag = op.at(0).as_str().to_string();
+        let role = op.at(1).as_usize() % 2;
+        let Some(mut s) = bring(&w, role, listen_addr, peer_addr, rid, peer_hold as u16, &caps).await else {
+            out.hit("probe.dut-did-not-connect");
+            continue;
+        };
+        let t0 = net::now_ms();
+        s.process_inbox(t0);
+        match tag.as_str() {
+            "silent" => {
+                let stop = op.at(2).as_u64() % 3;
+                let extra = op.at(3).as_u64();
+                if stop >= 1 {
+                    s.send_open();
+                }
+                w.quiesce().await;
+                s.process_inbox(net::now_ms());
+                if stop >= 2 {
+                    s.send_keepalive();
+                    w.quiesce().await;
+                    s.process_inbox(net::now_ms());
+                    if !s.keepalive_times.is_empty() {
+                        s.state = SpkState::Established;
+                    }
+                }
+                out.hit(["fault.silent-in-opensent", "fault.silent-in-openconfirm", "fault.silent-in-established"][stop as usize]);
+                let t_silent = net::now_ms();
+                let timer_ms = if stop == 0 { 240_000 } else { negotiated * 1000 };
+                // shortly before the timer the connection must still be there
+                tokio::time::sleep(Duration::from_millis(timer_ms.saturating_sub(1500))).await;
+                w.quiesce().await;
+                s.process_inbox(net::now_ms());
+                if s.conn.as_ref().is_some_and(|c| c.ctl().peer_closed()) && s.notifications.iter().any(|n| n.notification_code() == 4) {
+                    fail!("hold-expiry/too-early", "op {} {}: role {} closed for hold-timer expiry {} ms after the last message, timer in force {} ms", opi, op.to_compact(), role, net::now_ms() - t_silent, timer_ms);
+                }
+                tokio::time::sleep(Duration::from_millis(1500 + 2000 + extra)).await;
+                w.quiesce().await;
+                s.process_inbox(net::now_ms());
+                let closed = s.conn.as_ref().is_some_and(|c| c.ctl().peer_closed());
+                let notified = s.notifications.iter().any(|n| n.notification_code() == 4);
+                seen_end = true;
+                if !closed {
+                    fail!(format!("hold-expiry/connection-not-torn-down/{}", ["opensent", "openconfirm", "established"][stop as usize]), "op {} {}: role {}: {} ms of silence with a {} ms timer in force and the connection is still open (notifications {:?})", opi, op.to_compact(), role, net::now_ms() - t_silent, timer_ms, s.notifications);
+                } else if !notified {
+                    fail!(format!("hold-expiry/no-hold-timer-expired-notification/{}", ["opensent", "openconfirm", "established"][stop as usize]), "op {} {}: role {}: closed without NOTIFICATION code 4 (got {:?})", opi, op.to_compact(), role, s.notifications);
+                }
+                s.close();
+                w.quiesce().await;
+                // the slot is free again
+                if let Some((a, p)) = w.peer_fsm_states(peer_addr).await {
+                    let st = if role == 0 { a } else { p };
+                    if st != crate::fsm::State::Idle {
+                        fail!("hold-expiry/slot-not-freed", "op {} {}: role {} FSM is {:?} after the silent connection ended", opi, op.to_compact(), role, st);
+                    }
+                }
+            }
+            _ => {
+                // a well-behaved connection must get through
+                s.auto_open = true;
+                s.auto_ka = true;
+                s.send_open();
+                // the DUT's OPEN may have been read already (before auto_ka was switched on)
+                s.send_keepalive();
+                if s.dut_open.is_some() {
+                    s.state = SpkState::OpenConfirm;
+                }
+                let mut ok = false;
+                for _ in 0..240 {
+                    w.quiesce().await;
+                    s.process_inbox(net::now_ms());
+                    if s.established() {
+                        ok = true;
+                        break;
+                    }
+                    if s.conn.as_ref().is_some_and(|c| c.ctl().peer_closed()) {
+                        break;
+                    }
+                    tokio::time::sleep(Duration::from_millis(250)).await;
+                }
+                out.hit("op.well-behaved-connection");
+                if !ok {
+                    fail!("liveness/well-behaved-connection-refused-after-expiry", "op {} {}: role {} did not reach Established (state {:?}, notifications {:?}, fsm {:?})", opi, op.to_compact(), role, s.state, s.notifications, w.peer_fsm_states(peer_addr).await);
+                }
+                s.close();
+                w.quiesce().await;
+                tokio::time::sleep(Duration::from_millis(500)).await;
+            }
+        }
+    }
+    out.nontrivial = seen_end;
+    out.vtime_ms = net::now_ms();
+    out
+}
